@@ -14,7 +14,7 @@ RULE = ('Hypothesis: client in {ModbusTcpClient, serial rtu, serial ascii, seria
         '(ModbusIOException) or a response with the request\'s tid (TCP) / unit (serial framings) and function code fc or '
         'fc|0x80 whose fields equal the independent decode of a frame that entered the receive path during this call; when '
         'only the conformant reply is scripted, that reply is returned with exactly the scripted values. Non-trivial: a '
-        'foreign/stale frame in some script, or >=2 transactions; distinct by SHA-1.')
+        'foreign/stale frame in some script, or >=2 transactions; distinct by SHA-1. Serial clients are also built with generated options: handle_local_echo on a line that echoes every written byte, strict on/off, baud rate 9600..115200.')
 ASSUMPTIONS = ['serial request units are drawn from 1..247 (0 is broadcast, 0 and 0xFF are documented wildcards of the unit filter)',
                'an exception raised by the call is not judged here (C13 owns "returns an error object instead of raising")',
                'binary transactions whose frames contain delimiter bytes are excluded (KF-BINARY-FRAMER-DELIMITER-BYTES)']
@@ -63,7 +63,8 @@ def _case(draw):
         script = draw(st.one_of(st.just(['reply']), st.just(['reply']), st.just(['exc']),
                                 st.lists(st.sampled_from(PARTS), min_size=0, max_size=3)))
         txs.append({'kind': k, 'fields': f, 'unit': draw(st.integers(1, 247)), 'script': script})
-    return {'client': client, 'tid_start': draw(st.sampled_from([0, 0, 65533, 65534])), 'txs': txs}
+    return {'client': client, 'tid_start': draw(st.sampled_from([0, 0, 65533, 65534])), 'txs': txs,
+            'serial': draw(transports.serial_options()) if client in ('rtu', 'ascii', 'binary') else {}}
 
 
 def strategy(tier):
@@ -115,7 +116,7 @@ class ScriptPeer(transports.Peer):
         return [(0.0, out)] if out else []
 
 
-def _mk_client(kind):
+def _mk_client(kind, w=None, serial=None):
     from pymodbus.client.sync import ModbusTcpClient, ModbusSerialClient
     from pymodbus.transaction import ModbusRtuFramer
     if kind == 'tcp':
@@ -125,7 +126,7 @@ def _mk_client(kind):
     if kind == 'tcp+ascii':
         from pymodbus.transaction import ModbusAsciiFramer
         return ModbusTcpClient('peer', 502, framer=ModbusAsciiFramer, timeout=1)
-    return ModbusSerialClient(method=kind, port='/dev/null', timeout=1, baudrate=19200)
+    return ModbusSerialClient(method=kind, port='/dev/null', timeout=1, **transports.serial_kwargs(w, serial))
 
 
 def run_case(case):
@@ -139,7 +140,9 @@ def run_case(case):
     peer = ScriptPeer(framing)
     nt = len(case['txs']) >= 2
     with transports.World(peer) as w:
-        client = _mk_client(ckind)
+        client = _mk_client(ckind, w, case.get('serial'))
+        if case.get('serial'):
+            labels.append('serial-opts:' + ','.join('%s=%s' % kv for kv in sorted(case['serial'].items())))
         client.transaction.tid = case['tid_start']
         leftovers = []           # frames still in the receive path from earlier calls
         rest = b''
